@@ -99,7 +99,7 @@ def telemetryClean (sc : Scenario) (o : Obs) : Bool :=
 
 /-- `Start` returned an error (which one is not the property's business) -/
 def isError : Res → Bool
-  | .ok => false | .hang => false | .panic => false | _ => true
+  | .ok => false | .hang => false | .killed => false | .panic => false | _ => true
 
 /-- "the first failure aborts startup leaving nothing running" -/
 def failedStartOk (sc : Scenario) (o : Obs) (failing : Option HB) : Bool :=
